@@ -377,8 +377,11 @@ async fn run_base(case: Case) {
         if case.event == Event::SenderDrop && case.mid && shs.lock().unwrap().sender_error.is_none() {
             // Cancel a streamed send part-way, then drop the sender.
             let big = Val::Blob(99, mux::payload(3, 99, 500));
-            let _ = kit::cancel_after(tx.send(big), kit::draw_range(2, 8)).await;
-            kit::probe("sender_dropped_mid_message");
+            match kit::cancel_after(tx.send(big.clone()), kit::draw_range(2, 8)).await {
+                // The send may complete before the cancellation point is reached.
+                Some(Ok(())) => shs.lock().unwrap().sent_ok.push(big),
+                _ => kit::probe("sender_dropped_mid_message"),
+            }
         }
         shs.lock().unwrap().sender_done = true;
         kit::activity();
